@@ -234,3 +234,25 @@ class FdTokenizer(Config):
 class FdIndexer(Config):
     name: Param[str]
     tokenizer: Param[FdTokenizer] = FdTokenizer(lowercase=True)
+
+
+# ---- C20 (b) repair command, graphs holding a configuration forced into the signature with setmeta(cfg, False) at a Meta position
+# (appended; uses RepNewCfg / RepOldCfg above: RepOldCfg is deprecated by rep_deprecate_all() after the workspace was populated)
+class RepMetaHolder(Config):
+    __xpmid__ = "verif.rep.metaholder"
+    m: Meta[Optional[RepNewCfg]] = None
+    k: Param[int] = 0
+
+
+class RepMetaTask(Task):
+    """`m` (and `h.m`) are Meta positions: a configuration there only counts for the identifier when it is flagged
+    setmeta(value, False)"""
+
+    __xpmid__ = "verif.rep.metatask"
+    m: Meta[Optional[RepNewCfg]] = None
+    p: Param[Optional[RepNewCfg]] = None
+    h: Param[Optional[RepMetaHolder]] = None
+    x: Param[int] = 0
+
+    def execute(self):
+        print(self.x)  # noqa: T201
